@@ -108,3 +108,39 @@ func H_C07_RestartOverlap() {
 	k.RestartRoutine(1)
 	k.ClearContext()
 }
+
+// H_C07_RemoveDelayRestart: release delay configured; the key is removed (removal pending),
+// its routine is restarted inside the delay window, then the delay expires: the key is gone,
+// the instance that was running at that moment has had its context cancelled (nothing is left
+// running for the removed key) and nothing is started again.
+func H_C07_RemoveDelayRestart() {
+	var live, runs int
+	ctor := func(key int) (keyed.Routine, int) {
+		return func(ctx context.Context) error {
+			vrt.Atomic(func() { live++; runs++ })
+			<-ctx.Done()
+			vrt.Atomic(func() { live-- })
+			return context.Canceled
+		}, key
+	}
+	k := keyed.NewKeyed[int, int](ctor, keyed.WithReleaseDelay[int, int](time.Second))
+	k.SetContext(context.Background(), true)
+	k.SetKey(1, true)
+	vrt.AtQuiescence(func() {
+		k.RemoveKey(1)
+		if vrt.Bool("restart") {
+			k.RestartRoutine(1)
+		}
+		vrt.AtQuiescence(func() {
+			vrt.Advance()
+			vrt.AtQuiescence(func() {
+				_, ok := k.GetKey(1)
+				vrt.Assert(!ok, "removed-key-present-after-delay")
+				var n int
+				vrt.Atomic(func() { n = live })
+				vrt.Assert(n == 0, "instance-of-removed-key-still-running")
+				vrt.Cover("delay-expired")
+			})
+		})
+	})
+}
